@@ -928,6 +928,9 @@ impl Harness for C20 {
                                     bump(&mut stats, k, *n);
                                 }
                             }
+                            if out.obs.iter().any(|o| o.leftover_temp_files > 0) {
+                                bump(&mut stats, "leftover_temp_files_seen", 1);
+                            }
                             if let Some(mut viol) = oracle(&v, &out.obs) {
                                 viol.detail = format!(
                                     "[crash sweep: run #{} killed at step {} ({:?}{})] {}",
